@@ -810,6 +810,7 @@ class Engine:
         self.pc: list = []
         self.solver = None
         self.nl_mode = False
+        self.decided: dict = {}
         self.model = None
         self.pending_div: list = []
         self.auto = itertools.count()
@@ -950,6 +951,18 @@ class Engine:
             return True
         if z3.is_false(es):
             return False
+        # the same term decided again on this path: implied by the path condition
+        k = e.get_id()
+        if k in self.decided:
+            return self.decided[k][1]
+        v = self._decide(e)
+        # keep the terms alive: z3 recycles AST ids of collected terms
+        self.decided[k] = (e, v)
+        ne = z3.Not(e)
+        self.decided[ne.get_id()] = (ne, not v)
+        return v
+
+    def _decide(self, e) -> bool:
         self.flush_divisions()
         self.stats.decisions += 1
         i = len(self.trace)
@@ -1384,6 +1397,7 @@ class Engine:
         self.solver = z3.Solver()
         self.solver.set('timeout', min(500, self.check_timeout_ms))
         self.nl_mode = False
+        self.decided = {}
         self.model = None
         self.pending_div = []
         self.auto = itertools.count()
